@@ -10,9 +10,17 @@
 #   CB_LINK=1        : /run/clockbound/shm is a symbolic link to the real segment file (/run/real/shm, with CB_PRIOR_PPB a live
 #                      segment): the daemon must publish THROUGH the link (the file attached clients have mapped); if the link is gone
 #                      or the linked file was not the one updated the output is "relinked"
+#   CB_PLACEHOLDER=1 : the previous instance never synchronised: its segment holds the placeholder record (as-of 0, void-after 1000 s,
+#                      bound 0, status Unknown) with max_drift_ppb = $CB_PRIOR_PPB
+#   CB_YOUNG=1       : the machine has just booted: CLOCK_MONOTONIC reads about 120 s (a time namespace)
+#   CB_LEAP=<n>      : a stand-in chronyd ($CB_HARNESS fakechronyd) answers every request with leap status n (3 = not synchronised)
+# Whatever the modifiers, no synchronised report ever reaches the daemon in these runs (chronyd is absent or unsynchronised), so the first
+# record it publishes must say Unknown: any other status is reported as "trusted <status> <bound>" instead of "ok <ppb>".
 # output: "ok <ppb>" | "refused <exit code>" | "rejected" (clap usage error, exit 2) | "timeout"
 BIN="$1"; shift
-exec unshare -m sh -c '
+TNS=""
+if [ -n "$CB_YOUNG" ]; then up=$(cut -d. -f1 /proc/uptime); TNS="--time --monotonic -$((up - 120)) --fork"; fi
+exec unshare -m $TNS sh -c '
 mount -t tmpfs tmpfs /run || exit 99
 BIN="$1"; shift
 prior_gen=0
@@ -22,7 +30,10 @@ if [ -n "$CB_PRIOR_PPB" ]; then
 import struct, sys, time
 now = time.clock_gettime(time.CLOCK_MONOTONIC)
 sec = int(now)
+import os
 rec = struct.pack("=qqqqqIII", sec, 0, sec + 1000, 0, 12345, int(sys.argv[1]), 0, 1)
+if os.environ.get("CB_PLACEHOLDER"):
+    rec = struct.pack("=qqqqqIII", 0, 0, 1000, 0, 0, int(sys.argv[1]), 0, 0)
 hdr = struct.pack("=IIIHH", 0x414D5A4E, 0x43420200, 72, 1, 10)
 open("/run/clockbound/shm", "wb").write(hdr + rec + b"\0" * (72 - 16 - len(rec)))
 PY
@@ -38,6 +49,13 @@ if [ -n "$CB_PHC" ]; then
   printf "DRIVER=ena\nPCI_SLOT_NAME=0000:00:05.0\n" > /run/fakeif/device/uevent
   set -- "$@" --phc-ref-id PHC0 --phc-interface ../../../run/fakeif
 fi
+sp=""
+if [ -n "$CB_LEAP" ]; then
+  mkdir -p /run/chrony
+  "$CB_HARNESS" fakechronyd /run/chrony/chronyd.sock 2130706433 "$CB_LEAP" 30 </dev/null >/dev/null 2>&1 &
+  sp=$!
+  sleep 0.3
+fi
 "$BIN" "$@" >/run/cb.log 2>&1 &
 pid=$!
 i=0
@@ -46,7 +64,10 @@ while [ $i -lt 100 ]; do
     gen=$(od -An -tu2 -j14 -N2 /run/clockbound/shm | tr -d " ")
     if [ "$gen" != "0" ] && [ "$gen" != "$prior_gen" ] && [ $((gen % 2)) -eq 0 ]; then
       ppb=$(od -An -tu4 -j56 -N4 /run/clockbound/shm | tr -d " ")
-      kill $pid 2>/dev/null; wait $pid 2>/dev/null
+      st=$(od -An -tu4 -j64 -N4 /run/clockbound/shm | tr -d " ")
+      bd=$(od -An -td8 -j48 -N8 /run/clockbound/shm | tr -d " ")
+      kill $pid $sp 2>/dev/null; wait $pid 2>/dev/null
+      if [ "$st" != "0" ]; then echo "trusted $st $bd"; exit 0; fi
       if [ -n "$CB_LINK" ]; then
         rgen=$(od -An -tu2 -j14 -N2 /run/real/shm 2>/dev/null | tr -d " ")
         if [ ! -L /run/clockbound/shm ] || [ "$rgen" != "$gen" ]; then echo "relinked"; exit 0; fi
@@ -56,10 +77,11 @@ while [ $i -lt 100 ]; do
   fi
   if ! kill -0 $pid 2>/dev/null; then
     wait $pid; rc=$?
+    [ -n "$sp" ] && kill $sp 2>/dev/null
     if [ $rc -eq 2 ]; then echo "rejected"; else echo "refused $rc"; fi
     exit 0
   fi
   sleep 0.05; i=$((i+1))
 done
-kill $pid 2>/dev/null
+kill $pid $sp 2>/dev/null
 echo timeout' sh "$BIN" "$@"
